@@ -3,6 +3,7 @@ package main
 import (
 	"os"
 
+	"github.com/berquerant/crd/input/ast"
 	"github.com/berquerant/crd/op"
 	vf "github.com/berquerant/crd/zz_verif"
 	"github.com/berquerant/crd/zz_verif/spec"
@@ -366,5 +367,37 @@ func VerifC08WriteCmd() {
 		}
 	}
 	vf.Assert("tempo-meter-key-at-tick-0-of-first-track", tempo && meter && keysig)
+	vf.Reach("end")
+}
+
+// VerifC12DebugFlag: --debug changes neither the bytes on standard output nor the outcome.
+func VerifC12DebugFlag() {
+	in := vf.TempPath("debug-in.txt")
+	verifReset(in)
+	defer verifReset(in)
+	text := []string{"C[1] Dm[2]\n", "C[", "C[1] ]", "4[1]{x", ""}[vf.NondetIntRange("text", 0, 4)]
+	os.WriteFile(in, []byte(text), 0o644)
+	run := func(debug bool) (string, error) {
+		flags := []string{"--output", ""}
+		if debug {
+			flags = append(flags, "--debug")
+		}
+		if err := textCmdParse.ParseFlags(flags); err != nil {
+			return "", err
+		}
+		return verifCapture("debug-out.txt", func() error {
+			rootCmd.PersistentPreRun(textCmdParse, nil)
+			return textCmdParse.RunE(textCmdParse, []string{in})
+		})
+	}
+	plain, perr := run(false)
+	debug, derr := run(true)
+	ast.SetDebug(0)
+	vf.Assert("debug-same-outcome", (perr == nil) == (derr == nil))
+	vf.Assert("debug-same-stdout", plain == debug)
+	if perr != nil {
+		vf.Assert("nothing-on-stdout-on-failure", plain == "" && debug == "")
+		vf.Reach("failed")
+	}
 	vf.Reach("end")
 }
